@@ -338,6 +338,20 @@ def check(prog, rep, tier):
         rep.bad("C20.full-range", f"{CLS}.clear", "no store", "clear() stores nothing into the byte array", K.module.relpath + ":1")
     # ---- who may access: everything else goes through the guarded reader
     allowed = set(guarded) | {"clear"}
+    # the population count may be taken byte by byte over the whole array: bits beyond `size` in the last byte are never set (every
+    # writer is guarded by idx < size - C20.guard -, allocation and clear store zeros), so whole bytes count exactly the bits in range
+    bytewise_count = False
+    nb_ = prog.method(CLS, "num_bits_set")
+    arr_ = ("f", SELF, ARR, 0)
+    rvs_ = [strip_epochs(p.exit[1]) for p in paths(prog, CLS, nb_) if p.exit[0] == "return"]
+    if len(rvs_) == 1 and rvs_[0][0] == "call" and rvs_[0][1] == ("g", "sum") and len(rvs_[0][2]) == 1 and rvs_[0][2][0][0] == "comp":
+        g_ = rvs_[0][2][0]
+        if len(g_[3]) == 1 and not g_[3][0][3] and strip_epochs(g_[3][0][2]) == arr_:
+            it_ = ("it", g_[3][0][1], arr_)
+            pops = (("call", ("m", ("call", ("g", "bin"), (it_,), ()), "count"), (C("1"),), ()), ("call", ("m", it_, "bit_count"), (), ()))
+            bytewise_count = strip_epochs(g_[2]) in pops
+    if bytewise_count:
+        allowed.add("num_bits_set")
     extra = [n for n in direct_access if n not in allowed]
     if extra:
         rep.bad("C20.who-may-access", f"{CLS}.{extra[0]}", "direct access", f"{extra} access the byte array without the guard", K.module.relpath + ":1")
@@ -355,6 +369,10 @@ def check(prog, rep, tier):
         f = prog.method(CLS, name)
         ps = paths(prog, CLS, f)
         good = False
+        if name == "num_bits_set" and bytewise_count:
+            if rep.rules["C20.guard"]["violations"] == 0:
+                rep.ok("C20.full-range", f"{CLS}.{name}: population count of every byte of the array (padding bits are never set: all writers are guarded)")
+                continue
         for p in ps:
             for e in p.events:
                 if e.kind == "call" and e.name == "map" and len(e.args) == 2 and e.args[0][0] == "bm" and e.args[0][1] == SELF \
@@ -436,6 +454,10 @@ from ..selftest import Mutant, del_stmt, replace_expr, replace_stmt, swap_binop,
 
 _U = "utilities.py"
 MUTANTS = [
+    Mutant("num_bits_set as a per-byte population count (same meaning: padding bits are never set)", "utilities.py",
+           replace_stmt("Bitarray", "num_bits_set", "return sum(", "return sum(bin(byte).count('1') for byte in self._bitarray)"), expect="silent"),
+    Mutant("num_bits_set per byte, last byte left out", "utilities.py",
+           replace_stmt("Bitarray", "num_bits_set", "return sum(", "return sum(bin(byte).count('1') for byte in self._bitarray[:-1])"), rule="C20."),
     Mutant("set_bit toggles when the masked byte differs from 1 (wrong for idx % 8 != 0)", "utilities.py",
            replace_stmt("Bitarray", "set_bit", "self._bitarray[b] = ", "if (self._bitarray[b] & (1 << (idx % 8))) != 1:\n    self._bitarray[b] = self._bitarray[b] ^ (1 << (idx % 8))"), rule="C20.addressing"),
     Mutant("set_bit toggles only when the bit is clear (same meaning)", "utilities.py",
